@@ -1630,6 +1630,8 @@ func (kmc *KeystoreManagerForPoC) ChangeRemark(accountID, newRemark string) erro
 		if err != nil {
 			return err
 		}
+		// memory is refreshed only after the transaction has been committed
+		addrManager.remark = newRemark
 		return nil
 	} else {
 		logging.CPrint(logging.ERROR, "account not exists",
